@@ -28,13 +28,32 @@ def run_property(pid, tier, seed):
     faults = []
 
     # ---- [P] functions under contract
+    from .engine import Engine
+    specs_src = open(os.path.join(VERIF, "contracts", "specs.py")).read()
+    all_ctx = {}
     for key in mod.FUNCTIONS:
         c = eng.reg.get(key)
         if c is None:
             faults.append(f"no contract registered for {key}")
             continue
-        rep = eng.verify(key)
+        # one engine per function: symbol numbering and axiom sets do not depend on what was verified before
+        e1 = Engine(eng.repo, eng.reg, specs_src)
+        e1._inline_seen = set()
+        rep = e1.verify(key)
         fn_reports.append(rep)
+        for ob in e1.obligations:
+            ob.eng = e1
+        eng.obligations.extend(e1.obligations)
+        eng.used_assumptions |= e1.used_assumptions
+        eng.notes.extend(e1.notes)
+        eng.unverified_paths.extend(e1.unverified_paths)
+        eng.quick_calls += e1.quick_calls
+        eng.quick_time += e1.quick_time
+        eng.paths += e1.paths
+        for ax, ks in zip(e1.axioms, e1.axioms.keys):
+            eng.axioms.append(ax, ks)
+        all_ctx.update(getattr(e1, "fn_ctx", {}))
+    eng.fn_ctx = all_ctx
     # ---- [P] property-level lemmas (pure logic over the contracts)
     if hasattr(mod, "lemmas"):
         eng.cur_fn = f"lemma:{pid}"
@@ -99,7 +118,7 @@ def run_property(pid, tier, seed):
     for ob in eng.obligations:
         if ob.result == "valid":
             continue
-        f = driver.triage(eng, pid, ob, ctx)
+        f = driver.triage(getattr(ob, "eng", eng), pid, ob, ctx)
         if f is None:
             undecided.append(ob)
         else:
@@ -180,6 +199,7 @@ def run_property(pid, tier, seed):
         "bounded_standins": [{k: v for k, v in b.items() if k != "failures"} for b in bounded],
         "samples": samples,
         "structural_notes": drift_notes + [n for n in eng.notes][:10],
+        "paths_not_verified": list(eng.unverified_paths),
         "undecided": [o.name for o in undecided],
         "known_findings": known_lines,
         "canary": canary,
